@@ -411,7 +411,7 @@ func init() {
 		ID: "C08", Level: "exploration",
 		QuickRuns: 12000, ThoroughRuns: 300000,
 		Gen: c08Gen, Exec: c08Exec, Shrink: c08Shrink,
-		Rule: "one case = one accepted input (generated programs with nested if/while/break/continue, functions, computed values, ternaries, logic operators, templates with statement holes, valid-prefix-plus-garbage, and a list of fragile shapes) executed under decision vectors: the natural run, 10 random vectors over {force truthy, force falsy, leave} and ALL truthy/falsy vectors up to length min(#conditional jumps, 5) (thorough: 8); the step hook overwrites the condition value before each jne/je/je.dup. Monitors at every instruction of every VM (main and sub): operands present for the opcode, jump offset present and target inside the program, block/hole pops matched, the same instruction of one running program always reached with the same number of open blocks and holes, roll state / annotation present when used, no opcode without VM semantics, no 'VM internal error' result. After the main program every function and computed value left in the variables is invoked under the same vector. distinct = distinct inputs; non-trivial = at least one conditional jump executed",
+		Rule: "one case = one accepted input (generated programs with nested if/while/break/continue, functions, computed values, ternaries, logic operators, templates with statement holes, valid-prefix-plus-garbage, and a list of fragile shapes) executed under decision vectors: the natural run, 10 random vectors over {force truthy, force falsy, leave} and ALL truthy/falsy vectors up to length min(#conditional jumps, 5) (thorough: 8); the step hook overwrites the condition value before each jne/je/je.dup. Monitors at every instruction of every VM (main and sub): operands present for the opcode, jump offset present (a conditional jump still holding the placeholder offset 0 counts as unpatched) and target inside the program, block/hole pops matched, the same instruction of one running program always reached with the same number of open blocks and holes, roll state / annotation present when used, no opcode without VM semantics, no 'VM internal error' result. After the main program every function and computed value left in the variables is invoked under the same vector. distinct = distinct inputs; non-trivial = at least one conditional jump executed",
 		Real: []string{"parser semantic actions (code emission, jump patching), bytecode, VM dispatch"},
 		Stub: []string{"branch outcomes (condition values overwritten by the simulator)"},
 		Assumptions: []string{"paths are sampled (all vectors only up to the length bound); a forced value can make a later instruction fail with an ordinary type error, which ends that path", "operand counts per opcode are the monitor's table, written from the VM's dispatch loop"},
